@@ -311,6 +311,7 @@ func (w *World) verifyUnit(fn *ssa.Function, defaultSafety []string) *UnitResult
 	if con != nil && rpc != "false" {
 		env := fr.specEnv(rh, nil, nil)
 		env.old = fr.entry
+		fr.bindAllocs(env)
 		resultEnv(env, fn.Signature, rets)
 		for _, c := range con.Ensures {
 			ts, ls := e.conjuncts(env, c.Expr, "")
